@@ -124,14 +124,9 @@ void TestIPhreeqc::setup_dump(InvIPhreeqc* ip) {
     std::cout << "PHASE " << i << " " << hx::hex(ph->name) << " constraint " << inv->phases[i].constraint << " force " << inv->phases[i].force
               << " alk " << hx::hexd(e->calc_alk(*rx)) << " formula " << hx::hex(ph->formula ? ph->formula : "") << " tokens";
     for (int j = 1; rx->token[j].s != NULL; j++) {
-      class master* m = rx->token[j].s->secondary ? rx->token[j].s->secondary : rx->token[j].s->primary;
-      int row = -3;
-      if (m) {
-        if (m->s == e->s_hplus) row = -2;
-        else if (m->s == e->s_h2o) row = -1;
-        else for (size_t k = 0; k < ne; k++) if (inv->elts[k].master == m) row = (int)k;
-      }
-      std::cout << " " << row << " " << hx::hexd(rx->token[j].coef) << " " << hx::hexd(m ? m->coef : 0.0);
+      class species* sp = rx->token[j].s;
+      std::cout << " " << hx::hex(sp->secondary ? sp->secondary->elt->name : "") << " " << hx::hex(sp->primary ? sp->primary->elt->name : "")
+                << " " << hx::hexd(rx->token[j].coef);
     }
     std::cout << " elts";
     for (const class elt_list* el = &ph->next_elt[0]; el->elt != NULL; el++)
@@ -148,19 +143,48 @@ void TestIPhreeqc::setup_dump(InvIPhreeqc* ip) {
       std::cout << "REDOX " << k << " " << hx::hex(me->elt->name) << " elt " << i << " coef " << hx::hexd(me->coef)
                 << " alk " << hx::hexd(e->calc_alk(*rx)) << " salk " << hx::hexd(me->s->alk) << " tokens";
       for (int j = 0; rx->token[j].s != NULL; j++) {
-        class master* m = rx->token[j].s->secondary ? rx->token[j].s->secondary : rx->token[j].s->primary;
-        int row = -3;
-        if (m) {
-          if (m->s == e->s_hplus) row = -2;
-          else if (m->s == e->s_h2o) row = -1;
-          else for (size_t q = 0; q < ne; q++) if (inv->elts[q].master == m) row = (int)q;
-        }
-        std::cout << " " << row << " " << hx::hexd(rx->token[j].coef);
+        class species* sp = rx->token[j].s;
+        std::cout << " " << hx::hex(sp->secondary ? sp->secondary->elt->name : "") << " " << hx::hex(sp->primary ? sp->primary->elt->name : "")
+                  << " " << hx::hexd(rx->token[j].coef);
       }
       std::cout << "\n";
       k++;
     }
   }
+  // isotopes: requested isotopes, isotope unknowns, data of solutions (after check_isotopes) and phases
+  for (size_t n = 0; n < inv->isotopes.size(); n++) {
+    class master* pm = e->master_bsearch_primary(inv->isotopes[n].elt_name);
+    bool isHO = pm && (pm == e->s_hplus->primary || pm == e->s_h2o->primary);
+    std::cout << "ISOELT " << n << " " << hx::hex(inv->isotopes[n].elt_name) << " " << hx::hex(pm ? pm->elt->name : "")
+              << " " << hx::hexd(inv->isotopes[n].isotope_number) << " " << isHO << "\n";
+  }
+  for (size_t k = 0; k < inv->isotope_unknowns.size(); k++)
+    std::cout << "ISOUNK " << k << " " << hx::hex(inv->isotope_unknowns[k].master ? inv->isotope_unknowns[k].master->elt->name : "")
+              << " " << hx::hexd(inv->isotope_unknowns[k].isotope_number) << "\n";
+  if (inv->isotopes.size() > 0) {
+    for (size_t i = 0; i < ns; i++) {
+      cxxSolution* s = Utilities::Rxn_find(e->Rxn_solution_map, inv->solns[i]);
+      if (!s) continue;
+      for (std::map<std::string, cxxSolutionIsotope>::iterator it = s->Get_isotopes().begin(); it != s->Get_isotopes().end(); ++it) {
+        class master* m = e->master_bsearch(it->second.Get_elt_name().c_str());
+        class master* pm = e->master_bsearch_primary(it->second.Get_elt_name().c_str());
+        std::cout << "SOLISO " << i << " " << hx::hex(m ? m->elt->name : "") << " " << hx::hex(pm ? pm->elt->name : "")
+                  << " " << hx::hexd(it->second.Get_isotope_number()) << " " << hx::hexd(it->second.Get_total())
+                  << " " << hx::hexd(it->second.Get_ratio()) << " " << hx::hexd(it->second.Get_x_ratio_uncertainty())
+                  << " " << hx::hex(it->second.Get_elt_name()) << " " << hx::hexd(it->second.Get_ratio_uncertainty()) << "\n";
+      }
+    }
+    for (size_t i = 0; i < np; i++)
+      for (size_t j = 0; j < inv->phases[i].isotopes.size(); j++) {
+        class isotope& is = inv->phases[i].isotopes[j];
+        std::cout << "PHISO " << i << " " << hx::hex(is.elt_name ? is.elt_name : "") << " " << hx::hex(is.primary ? is.primary->elt->name : "")
+                  << " " << hx::hexd(is.isotope_number) << " " << hx::hexd(is.ratio) << " " << hx::hexd(is.coef)
+                  << " " << hx::hexd(is.ratio_uncertainty) << "\n";
+      }
+  }
+  for (size_t j = 0; j < e->master.size(); j++)
+    std::cout << "MASTER " << hx::hex(e->master[j]->elt->name) << " " << hx::hexd(e->master[j]->coef) << " "
+              << (e->master[j]->s == e->s_hplus) << " " << (e->master[j]->s == e->s_h2o) << "\n";
   for (size_t c = 0; c < e->count_unknowns; c++) std::cout << "COLNAME " << c << " " << hx::hex(e->col_name[c] ? e->col_name[c] : "") << "\n";
   for (size_t r = 0; r < e->count_rows; r++) {
     std::cout << "ROW " << r << " " << hx::hex(e->row_name[r] ? e->row_name[r] : "");
